@@ -3,6 +3,9 @@
 package gomatrixserverlib
 
 import (
+	"crypto/sha256"
+	"encoding/base64"
+	"encoding/json"
 	"time"
 
 	"github.com/matrix-org/gomatrixserverlib/spec"
@@ -61,9 +64,13 @@ func vpProtoBuilder(verImpl IRoomVersion, name string) *EventBuilder {
 		sk = nil
 	}
 	content := vpJObj("membership", vpChoice(name+".membership", spec.Join, spec.Leave), "body", vpNondetStringN(name+".body", 2))
+	if vpNondetBool(name + ".minimal") {
+		// only content that survives redaction for member events: the redacted form of such an event is the event itself
+		content = vpJObj("membership", vpChoice(name+".membership2", spec.Join, spec.Leave))
+	}
 	prev := []string{"$p1:x"}
 	auth := []string{"$a1:x"}
-	if verImpl.EventIDFormat() != EventIDFormatV1 {
+	if vpSpecTraits(ver).idFormat != EventIDFormatV1 {
 		prev = []string{"$0123456789012345678901234567890123456789abc"}
 		auth = []string{"$0123456789012345678901234567890123456789abd"}
 	}
@@ -129,10 +136,10 @@ func vp_C03_roundtrip() {
 		}
 	}
 
-	if verImpl.EventIDFormat() != EventIDFormatV1 {
+	if vpSpecTraits(ver).idFormat != EventIDFormatV1 {
 		id := ev.EventID()
 		vpAssert("id-shape", len(id) == 44 && id[0] == '$')
-		urlSafe := verImpl.EventIDFormat() == EventIDFormatV3
+		urlSafe := vpSpecTraits(ver).idFormat == EventIDFormatV3
 		for i := 1; i < len(id); i++ {
 			c := id[i]
 			alnum := (c >= 'A' && c <= 'Z') || (c >= 'a' && c <= 'z') || (c >= '0' && c <= '9')
@@ -140,6 +147,26 @@ func vp_C03_roundtrip() {
 				vpAssert("id-alphabet", alnum || c == '-' || c == '_')
 			} else {
 				vpAssert("id-alphabet", alnum || c == '+' || c == '/')
+			}
+		}
+		// the ID is the base64 (alphabet of the version, chosen by the harness's own table) of the SHA-256 of the
+		// canonical redacted event without signatures, unsigned and age_ts
+		if red, rerr := verImpl.RedactEventJSON(ev.JSON()); rerr == nil {
+			var m map[string]spec.RawJSON
+			if json.Unmarshal(red, &m) == nil {
+				delete(m, "signatures")
+				delete(m, "unsigned")
+				delete(m, "age_ts")
+				if b, merr := json.Marshal(m); merr == nil {
+					if c, cerr := CanonicalJSON(b); cerr == nil {
+						h := sha256.Sum256(c)
+						wantID := "$" + base64.RawStdEncoding.EncodeToString(h[:])
+						if urlSafe {
+							wantID = "$" + base64.RawURLEncoding.EncodeToString(h[:])
+						}
+						vpAssert("id-is-reference-hash", id == wantID)
+					}
+				}
 			}
 		}
 		// unsigned edit
